@@ -1,0 +1,19 @@
+//go:build verif
+
+// Machine-checked contracts for package msi (comment-only; see /verif/DESIGN.md).
+
+package msi
+
+//@ func (*msiTransformer).Apply
+//@   property C13
+//@   ghost open bool = false
+//@   ghost committed bool = false
+//@   ghost failed bool = false
+//@   on call atomicfile.WriteInPlace(_, _) ret (f, e): open = (e == nil)
+//@   on call authenticode.InsertMSISignature(_, _, _) ret (e): failed = failed || e != nil
+//@   on call (*comdoc.ComDoc).Close(_) ret (e): failed = failed || (open && e != nil)
+//@   on call invoke atomicfile.AtomicFile.Commit(_) ret (e): committed = (e == nil); open = open && e != nil; \
+//@        assert @commit_only_after_complete_output !failed
+//@   on call invoke atomicfile.AtomicFile.Close(_) ret (e): open = false
+//@   ensures @no_temp_file_left !open
+//@   ensures @success_means_committed ret0 == nil ==> committed
